@@ -297,11 +297,38 @@ def run(ctx):
                'every appended example must tighten lower_bound, upper_bound and max_len unconditionally (updated: %s)' % sorted(upd))
     ass = ts0.own('assess')
     if ass is not None:
-        rets_ = [r for r in flow.returns_of(ass.node) if r.value is not None]
+        rets_ = [r for r in flow.returns_of(ass.node) if r.value is not None and not A.is_const(r.value, False)]
         ok8 = len(rets_) == 1 and isinstance(rets_[0].value, ast.Compare) and len(rets_[0].value.ops) == 2 \
             and all(isinstance(o, ast.LtE) for o in rets_[0].value.ops) and A.is_self_attr(rets_[0].value.left, 'lower_bound') \
             and A.is_self_attr(rets_[0].value.comparators[1], 'upper_bound')
         rep.ob('P8', K.key(ts0, 'assess', 'accepts-iff-lower<=len<=upper'), ok8, ass.node, '')
+    # ---------------- P9 the size limit is part of the acceptance test (a longer example raises the padded length
+    # of every member, so testing only "is the bucket complete" before the append is not enough)
+    if ass is not None:
+        cand = None
+        for n in A.walk_local(ass.node):
+            if isinstance(n, ast.Assign) and isinstance(n.value, ast.Call) and A.is_self_attr(n.value.func, 'len_key') \
+                    and isinstance(n.targets[0], ast.Name):
+                cand = n.targets[0].id
+        ok9 = False
+        for n in A.walk_local(ass.node):
+            if isinstance(n, ast.Compare) and any(A.is_self_attr(x, 'max_total_size') for x in ast.walk(n)):
+                names = {x.id for x in ast.walk(n) if isinstance(x, ast.Name)}
+                attrs = {x.attr for x in ast.walk(n) if isinstance(x, ast.Attribute) and A.is_name(x.value, 'self')}
+                if cand in names and 'max_len' in attrs and 'data' in attrs and any(
+                        isinstance(x, ast.Call) and A.dotted(x.func) == 'max' for x in ast.walk(n)):
+                    # exceeding -> refuse
+                    par = n
+                    while not isinstance(par, (ast.If, ast.Return)) and A.parent(par) is not None:
+                        par = A.parent(par)
+                    if isinstance(par, ast.If):
+                        ok9 = any(isinstance(s_, ast.Return) and A.is_const(s_.value, False) for s_ in par.body)
+                    elif isinstance(par, ast.Return):
+                        ok9 = True
+        rep.ob('P9', K.key(ts0, 'assess', 'size-limit-checked-with-the-candidate-length'), ok9, ass.node,
+               '' if ok9 else 'assess() accepts an example without testing (len(data)+1) * max(max_len, len(example)) against '
+               'max_total_size: a longer example joins a bucket and pushes its total size over the limit (is_completed only '
+               'looks at the current max_len)')
     # ---------------- P3 final flush
     after = fn.body[fn.body.index(loop) + 1:]
     fl = [l for l in after if isinstance(l, ast.For) and A.is_name(l.iter, B)]
